@@ -175,6 +175,13 @@ def child_main(argv):
     with open(os.path.join(workdir, 'meta.json'), 'w') as f:
         json.dump({'warc': os.path.basename(warc_name), 'snapshot_len': len(snapshot)}, f)
     rec = make(1000, size)
+    if scenario == 'cdx':
+        # with --warc-cdx an HTTP response record is followed by a line in the CDX file
+        rec = WARCRecord()
+        rec.set_common_fields('response', 'application/http; msgtype=response')
+        rec.fields['WARC-Target-URI'] = 'http://h.test/page'
+        rec.block_file = io.BytesIO(b'HTTP/1.1 200 OK\r\nContent-Type: text/html\r\nContent-Length: 5\r\n\r\nhello')
+        recorder.set_length_and_maybe_checksums(rec, payload_offset=64)
     os.environ['FI_ARMED'] = '1'
     try:
         recorder.write_record(rec)
@@ -313,6 +320,21 @@ def case_worker(job):
                     part.violation('double-fault-{}leaves-damaged-archive-without-usable-journal/{}+{}:{}'.format(
                         'then-next-append-' if job.get('then_append') else '', opclass, second.get('kind'), 'journal' if str(second.get('file', '')).endswith('-wpullinc') else 'archive'),
                         detail, replay)
+            return part.dump()
+        if op['file'].endswith('.cdx'):
+            # the fault or kill hits the CDX file, after the append to the archive has been completed: the archive holds
+            # the earlier records (and possibly the new one) as a valid sequence, and no journal stays behind
+            opclass = '{}:cdx-file'.format(op['kind'])
+            part.count('faults_on_the_cdx_file')
+            verdict = valid_archive(archive, cfg['compress'])
+            if mode in ('err', 'sticky', 'short') and (proc.returncode != 0 or result is None):
+                part.violation('process-died-on-io-error/' + opclass, dict(detail, rc=proc.returncode), replay)
+            elif verdict is not True or archive[:len(snapshot)] != snapshot:
+                part.violation('archive-damaged-by-a-failure-on-the-cdx-file/' + opclass, dict(detail, verdict=str(verdict)), replay)
+            elif journals:
+                part.violation('journal-left-although-the-append-was-completed/' + opclass, detail, replay)
+            else:
+                part.count('archive_valid_and_no_journal_after_cdx_failure')
             return part.dump()
         if mode in ('err', 'sticky', 'short'):
             if proc.returncode != 0 or result is None:
@@ -563,9 +585,8 @@ def main():
     for compress in (False, True):
         cfgs.append({'compress': compress, 'earlier': 3, 'size': 0, 'scenario': 'overwrite'})
         cfgs.append({'compress': compress, 'earlier': 2, 'size': 0, 'scenario': 'meta'})
-    if check.thorough:
-        for compress in (False, True):
-            cfgs.append({'compress': compress, 'earlier': 2, 'size': 60, 'scenario': 'cdx'})
+    for compress in ((False, True) if check.thorough else (False,)):
+        cfgs.append({'compress': compress, 'earlier': 2, 'size': 60, 'scenario': 'cdx'})
     jobs = []
     op_lists = {}
     for cfg in cfgs:
